@@ -57,6 +57,8 @@ def main():
         rc, o, err = sh(f"{PY} -m pytest -q -p no:cacheprovider --timeout=900 --continue-on-collection-errors 2>&1 | tail -1", cwd=patched)
         out["tests_with_change"] = o.strip()
         demo = open(os.path.join(src, "demo.py")).read().replace(src, "{ROOT}")
+        if src.startswith(os.path.join(HERE, "seeded")):   # re-evaluation of a stored seed: its demo was rewritten to /repo
+            demo = demo.replace("/repo", "{ROOT}")
         for name, root in (("clean", clean), ("patched", patched)):
             open(os.path.join(root, "demo.py"), "w").write(demo.replace("{ROOT}", root))
         rc_c, o_c, e_c = sh(f"PYTHONPATH={clean} {PY} demo.py", cwd=clean, timeout=600)
@@ -81,7 +83,8 @@ def main():
         out["detected_by"] = det
         dst = os.path.join(HERE, "seeded", a.seed_id)
         os.makedirs(dst, exist_ok=True)
-        shutil.copy(os.path.join(src, "patch.diff"), os.path.join(dst, "patch.diff"))
+        if os.path.abspath(src) != os.path.abspath(dst):
+            shutil.copy(os.path.join(src, "patch.diff"), os.path.join(dst, "patch.diff"))
         open(os.path.join(dst, "demo.py"), "w").write(demo.replace("{ROOT}", "/repo"))
         meta2 = dict(meta)
         meta2["demo_cmd"] = "git -C /repo apply /verif/seeded/%s/patch.diff && (cd /repo && PYTHONPATH=/repo /venv/bin/python /verif/seeded/%s/demo.py); git -C /repo checkout -- ." % (a.seed_id, a.seed_id)
